@@ -184,6 +184,8 @@ pub enum Op {
     Matched { kind: String, id: u32 },
     MatchedData { kind: String, id: u32, #[serde(default)] peer_kind: String, peer: u32 },
     Discovered { p: u32 },
+    /// instance handle (GUID) of the participant itself
+    Whoami { p: u32 },
     /// daemon: poll get_discovered_participants every `period_us`, logging every change of the set
     WatchDiscovered { p: u32, period_us: u64 },
     Ignore { p: u32, what: String, target_kind: String, target: u32 },
@@ -217,7 +219,17 @@ pub enum InjectGen {
     /// raw bytes (hex)
     Raw { hex: String },
     /// take the n-th captured datagram matching class mask, apply mutations
-    Mutate { class: u32, nth: u32, muts: Vec<Mut> },
+    Mutate {
+        class: u32,
+        nth: u32,
+        muts: Vec<Mut>,
+        /// replace the source GUID prefix by one that belongs to no participant (attacker that does not spoof)
+        #[serde(default, skip_serializing_if = "is_false")]
+        foreign: bool,
+    },
+    /// re-send the n-th captured DATA of the class as the *next* change of its writer (sequence number = highest seen
+    /// + 1 + sn_off), with the payload mutated (offsets relative to the payload start): a reliable reader accepts it
+    Fresh { class: u32, nth: u32, sn_off: i64, muts: Vec<Mut> },
     /// crafted well-formed message, see hostile.rs
     Craft { kind: String, spoof_p: Option<u32>, a: i64, b: i64, c: i64, d: i64 },
 }
